@@ -1522,7 +1522,92 @@ func literalLenPrune(c *engine.Context) func(fp *fnPath) bool {
 	if lit == nil {
 		return nil
 	}
-	oneElem := c.Memo("literalFieldIsOne", func() interface{} {
+	oneElem := literalFieldIsOne(c)
+	if !oneElem {
+		return nil
+	}
+	edge := literalLenEdgeInfeasible(c)
+	return func(fp *fnPath) bool {
+		for _, ec := range fp.conds {
+			if edge(ec.cond, ec.taken) {
+				return true
+			}
+		}
+		return false
+	}
+}
+
+// literalLenEdgeInfeasible: the edge test behind literalLenPrune (nil-safe: answers false when the
+// one-element classification does not hold).
+func literalLenEdgeInfeasible(c *engine.Context) func(cond ssa.Value, taken bool) bool {
+	p := c.P
+	lit := literalQueryType(p)
+	never := func(ssa.Value, bool) bool { return false }
+	if lit == nil || !literalFieldIsOne(c) {
+		return never
+	}
+	return func(cond ssa.Value, taken bool) bool {
+		inner, neg := unwrapNot(cond)
+		bo, isBo := inner.(*ssa.BinOp)
+		if !isBo {
+			return false
+		}
+		op, x, y := bo.Op, bo.X, bo.Y
+		if _, isLen := lenArg(x); !isLen {
+			if _, isLen2 := lenArg(y); !isLen2 {
+				return false
+			}
+			x, y = y, x
+			op = mirrorOp(op)
+		}
+		lx, _ := lenArg(x)
+		ld, isLd := lx.(*ssa.UnOp)
+		if !isLd {
+			return false
+		}
+		fa, isFA := ld.X.(*ssa.FieldAddr)
+		if !isFA || fa.Field != 0 {
+			return false
+		}
+		pt, isP := fa.X.Type().Underlying().(*types.Pointer)
+		if !isP || !types.Identical(pt.Elem(), lit) {
+			return false
+		}
+		cv, isC := cfgutilConst(y)
+		if !isC {
+			return false
+		}
+		// truth of the comparison for len == 1
+		var holds bool
+		switch op {
+		case token.GTR:
+			holds = 1 > cv
+		case token.GEQ:
+			holds = 1 >= cv
+		case token.LSS:
+			holds = 1 < cv
+		case token.LEQ:
+			holds = 1 <= cv
+		case token.EQL:
+			holds = 1 == cv
+		case token.NEQ:
+			holds = 1 != cv
+		default:
+			return false
+		}
+		return (taken != neg) != holds
+	}
+}
+
+// literalFieldIsOne: every store into the value-list field of the literal operand, anywhere,
+// stores a list of exactly one element.
+func literalFieldIsOne(c *engine.Context) bool {
+	p := c.P
+	lit := literalQueryType(p)
+	if lit == nil {
+		return false
+	}
+	return c.Memo("literalFieldIsOne", func() interface{} {
 		lc := &lclassCtx{p: p, comp: map[*ssa.Function]*ssa.Parameter{}}
 		ok, n := true, 0
 		for _, f2 := range p.Funcs {
@@ -1549,63 +1634,4 @@ func literalLenPrune(c *engine.Context) func(fp *fnPath) bool {
 		}
 		return ok && n > 0
 	}).(bool)
-	if !oneElem {
-		return nil
-	}
-	return func(fp *fnPath) bool {
-		for _, ec := range fp.conds {
-			inner, neg := unwrapNot(ec.cond)
-			bo, isBo := inner.(*ssa.BinOp)
-			if !isBo {
-				continue
-			}
-			op, x, y := bo.Op, bo.X, bo.Y
-			if _, isLen := lenArg(x); !isLen {
-				if _, isLen2 := lenArg(y); !isLen2 {
-					continue
-				}
-				x, y = y, x
-				op = mirrorOp(op)
-			}
-			lx, _ := lenArg(x)
-			ld, isLd := lx.(*ssa.UnOp)
-			if !isLd {
-				continue
-			}
-			fa, isFA := ld.X.(*ssa.FieldAddr)
-			if !isFA || fa.Field != 0 {
-				continue
-			}
-			pt, isP := fa.X.Type().Underlying().(*types.Pointer)
-			if !isP || !types.Identical(pt.Elem(), lit) {
-				continue
-			}
-			cv, isC := cfgutilConst(y)
-			if !isC {
-				continue
-			}
-			// truth of the comparison for len == 1
-			var holds bool
-			switch op {
-			case token.GTR:
-				holds = 1 > cv
-			case token.GEQ:
-				holds = 1 >= cv
-			case token.LSS:
-				holds = 1 < cv
-			case token.LEQ:
-				holds = 1 <= cv
-			case token.EQL:
-				holds = 1 == cv
-			case token.NEQ:
-				holds = 1 != cv
-			default:
-				continue
-			}
-			if (ec.taken != neg) != holds {
-				return true
-			}
-		}
-		return false
-	}
 }
